@@ -4,7 +4,7 @@ import RP.Model.Kmeans
 
 ```
 nbr <K> <bits>^K                                   → <index> ~d | panic
-next <k> <K> <N> (<H point> <bits>^K)^N            → ok <k> (<mass> <n> (<code> <count>)*)^k | panic
+next <street> <K> <N> (<H point> <bits>^K)^N       → ok <k> (<mass> <n> (<code> <count>)*)^k | panic   (k = street.k() from RP.Gen)
 lookup <street> <K> <N> (<bits>^K)^N               → ok <code>^N | panic
 metric <street> <K> <bits>^(K·K)                   → <n> (<key> ~v)*
 H = <n> <mass> (<code> <count>)*
@@ -46,6 +46,13 @@ def rowDist (p : Hist × List F) (j : Nat) : F := p.2.getD j nan
 
 def cmpF : F → F → Option Ordering := Arith.cmp
 
+/-- `Street::k()` from the generated constants (standard deck) -/
+def streetK : Nat → Nat
+  | 0 => RP.Gen.n_isomorphisms_Std.getD 0 0
+  | 1 => RP.Gen.KMEANS_FLOP_CLUSTER_COUNT
+  | 2 => RP.Gen.KMEANS_TURN_CLUSTER_COUNT
+  | _ => 0
+
 def showHist (h : Hist) : String :=
   s!" {h.mass} {h.n}" ++ String.join (h.counts.map fun e => s!" {e.1} {e.2}")
 
@@ -61,12 +68,13 @@ def handle (line : String) : String :=
         | none => "panic"
       | _ => "bad-op"
     | none => "bad-op"
-  | "next" :: k :: kc :: n :: rest =>
-    match nat? k, nat? kc, nat? n with
-    | some k, some kc, some n =>
+  | "next" :: st :: kc :: n :: rest =>
+    match nat? st, nat? kc, nat? n with
+    | some st, some kc, some n =>
+      if st ≥ 4 then "bad-op" else
       match parsePoints kc true n rest [] with
       | some (pts, []) =>
-        match next k cmpF rowDist Prod.fst pts (List.range kc) with
+        match next (streetK st) cmpF rowDist Prod.fst pts (List.range kc) with
         | some cs => s!"ok {cs.length}" ++ String.join (cs.map showHist)
         | none => "panic"
       | _ => "bad-op"
